@@ -147,7 +147,7 @@ def law_job(kind, bname, other):
                 return ('CEX', 'refl', 'e == e is False', wit())
             if bval(e != e2):
                 return ('CEX', 'ne', 'e != e is True', wit())
-            instr.HASH_MODE[0] = 'uf'
+            instr.HASH_MODE[0] = 'exact'
             try:
                 st, m = eng.find(hash_term(e) != hash_term(e2))
             finally:
@@ -165,7 +165,7 @@ def law_job(kind, bname, other):
             if r3 == r1:
                 return ('CEX', 'ne', '(e != f) is %s and (e == f) is %s' % (r3, r1), wit())
             if r1:
-                instr.HASH_MODE[0] = 'uf'
+                instr.HASH_MODE[0] = 'exact'
                 try:
                     st, m = eng.find(hash_term(e) != hash_term(f))
                 finally:
@@ -550,7 +550,7 @@ def main(argv=None):
                      'value laws over rule templates + depth-1 shapes (sampled in quick), replacement maps of size 1 over every sub-expression, replacements {identifier, identifier+1}')
     if cov['proved'] == 0:
         herr.append('vacuous: nothing proved')
-    assumptions = ['hash of an integer modelled as an uninterpreted function of its value; str hashes concrete', 'E1 meaning of the IR', 'z3 5.1.0', 'SInt proxy']
+    assumptions = ['hash of an integer n: n itself for 0 <= n < 2^61-1 (CPython), an uninterpreted function of the value beyond; str hashes concrete', 'E1 meaning of the IR', 'z3 5.1.0', 'SInt proxy']
     return common.finish(PROP, a.tier, a.seed, 'model_checking', t0, cov, assumptions, cands, herr, inconc, make_replay)
 
 
